@@ -329,6 +329,23 @@ def account_case(ctx, rng):
             return f"{name}: a claimed state whose own hash is not the committed one was accepted"
     if both("blockhash", genuine, rng.randbytes(32)) == "ok":
         return "blockhash: proof accepted against another block hash"
+    # history: after this block's header has been checked and accepted, ANOTHER header presented under the same block hash
+    # (here: the same state update under a block cell with other contents) must still be rejected - directly, and as the
+    # first root of an account proof
+    from pytoniq_core.proof.check_proof import check_block_header_proof
+    dummy2 = Builder().store_uint(2, 2).end_cell()
+    block2 = Builder().store_uint(0x11ef55aa, 32).store_ref(dummy2).store_ref(dummy).store_ref(upd).store_ref(dummy2).end_cell()
+    for store in (True, False):
+        try:
+            check_block_header_proof(block2, blk.root_hash, store)
+            return f"header-replaced: another header cell was accepted for a block hash checked before (store_state_hash={store})"
+        except Exception:
+            pass
+    try:
+        check_account_proof(two_root_boc([mp(block2), mp(state)]), blk, addr, genuine)
+        return "header-replaced: an account proof under another header cell was accepted for a block hash checked before"
+    except Exception:
+        pass
     # history: an account proved in an EARLIER shard state and absent from this one must not be accepted here
     for old_addr, old_state in LAST_ACCOUNT:
         if int.from_bytes(old_addr.hash_part, "big") not in ids:
